@@ -56,7 +56,10 @@ def cases(seed, tier):
         v = M.g_documented(rng)
         if rng.random() < 0.3:
             v = M.nest(v, rng.choice([1, 2, 4]), rng)
-        out.append({'v': v, 'where': rng.choice(['root', 'root', 'node', 'leaf'])})
+        c = {'v': v, 'where': rng.choice(['root', 'root', 'node', 'leaf'])}
+        if c['where'] != 'root' and rng.random() < 0.25:
+            c['share_root'] = True       # one Metadata instance attached to the node AND to the root of its tree
+        out.append(c)
     return out
 
 
